@@ -13,8 +13,10 @@ Record case := mkcase {
 Definition opts0 := option_strings default_cfg_parser.
 Definition in_scope (c : case) : bool := true.
 
+(* per field: the same option strings, in the same order when the regenerated fact says the order is preserved *)
 Definition sets_eqb (a b : list (list string)) : bool :=
-  list_eqb (fun x y => strs_seteq x y && Nat.eqb (List.length x) (List.length y)) a b.
+  list_eqb (fun x y => if option_order_preserved_gen then strs_eqb x y
+                       else strs_seteq x y && Nat.eqb (List.length x) (List.length y)) a b.
 
 Definition model_ok (c : case) : bool :=
   match resolve_gen opts0 c.(c_mode) c.(c_fws), c.(c_obs) with
